@@ -1506,9 +1506,10 @@ class ExtendedToOriginalDecorator:
         try:
             outcome = getattr(self.decorated, "addUnexpectedSuccess", None)
             if outcome is None:
+                failure = getattr(test, "failureException", None) or AssertionError
                 try:
-                    test.fail("")
-                except test.failureException:
+                    raise failure("")
+                except failure:
                     return self.addFailure(test, sys.exc_info())
             if details is not None:
                 try:
